@@ -111,6 +111,10 @@ ASSUMPTIONS = [
     "mask bits explored by forking (one path per mask); sub-size maps, shapes and schedules enumerated",
     "symbolic pixel scales lie in [1/8, 8]",
     "iterate: 0 < fractional_accuracy <= 1, relative_accuracy >= 0; divisions lower/higher add 'higher != 0' to the path (engine division domain)",
+    "iterate, masks with 2 pixels: a per-pixel obligation is first decided under the sub-set of the path condition that shares user-function values "
+    "with it (cone of influence; dropping hypotheses is sound for 'holds'), and under the full path condition only if that is not unsat",
+    "iterate counterexamples are preferably taken 1e-4 away from every decision boundary of the scheme so that the float64 replay is stable; the "
+    "'holds' verdicts themselves carry no such margin",
 ]
 EXPLORER_OPTS = {"timeout_ms": 20000, "max_paths": 100000}
 BUDGET_S = {"quick": 600, "thorough": 2300}
